@@ -79,6 +79,8 @@ pub struct OpM {
     pub dropped: bool,
     pub holds_slot: bool,
     pub nfilters: usize,
+    /// the request encodes to more than 300 bytes
+    pub oversize: bool,
     pub expected_items: Vec<MsgSum>,
     /// injection sequence number of each expected item
     pub expected_seq: Vec<usize>,
@@ -161,6 +163,8 @@ pub struct World {
     pub term_checked: bool,
     pub disc_wire_idx: Option<usize>,
     pub inbound_seq: usize,
+    /// identifiers read off malformed packets (see `positional_id`)
+    pub malformed_ids: BTreeSet<u16>,
     /// topic aliases the broker has established on the current connection
     pub aliases: BTreeSet<u16>,
     pub pubrel_seq: usize,
@@ -194,6 +198,8 @@ pub struct World {
     pub size_mix: bool,
     /// every third publish carries a content type and a user property of boundary sizes (see `rich_options`)
     pub rich_pubs: bool,
+    /// every third subscribe / unsubscribe carries a topic filter of 300 bytes (refused under a small Maximum Packet Size)
+    pub big_subs: bool,
     /// every fourth publish has a topic with multi-byte UTF-8 characters
     pub utf8_topics: bool,
     /// every fifth inbound PUBLISH carries the full set of forwardable properties
@@ -211,6 +217,8 @@ pub struct World {
 #[derive(Default, Clone, Debug)]
 pub struct Counters {
     pub sized_inbound: u64,
+    pub oversize_refusals_expected: u64,
+    pub disconnects_ending_in_empty_value: u64,
     pub utf8_topic_pubs: u64,
     pub alias_only_inbound: u64,
     pub rich_inbound: u64,
@@ -340,6 +348,7 @@ impl World {
             term_checked: false,
             disc_wire_idx: None,
             inbound_seq: 0,
+            malformed_ids: BTreeSet::new(),
             aliases: BTreeSet::new(),
             pubrel_seq: 0,
             unsettled_completion: false,
@@ -362,6 +371,7 @@ impl World {
             reconnects: 0,
             size_mix: false,
             rich_pubs: false,
+            big_subs: false,
             utf8_topics: true,
             rich_inbound: true,
             rich_phase: 2,
@@ -418,7 +428,7 @@ impl World {
                 OpSpec::Publish(sp)
             }
             Kind::Sub => {
-                let mut sp = SubSpec::simple(&format!("f/{idx}"));
+                let mut sp = SubSpec::simple(&if self.big_subs && idx % 3 == 1 { format!("f/{idx}/{}", "x".repeat(300)) } else { format!("f/{idx}") });
                 if self.multi_filter && idx % 2 == 1 {
                     // one subscribe() call with three topic filters: one subscription identifier, one stream
                     let opt = sp.filters[0].1.clone();
@@ -429,7 +439,7 @@ impl World {
                 OpSpec::Subscribe(sp)
             }
             Kind::Unsub => {
-                let mut sp = UnsubSpec::simple(&format!("u/{idx}"));
+                let mut sp = UnsubSpec::simple(&if self.big_subs && idx % 3 == 1 { format!("u/{idx}/{}", "y".repeat(300)) } else { format!("u/{idx}") });
                 if self.multi_filter && idx % 2 == 0 {
                     // one unsubscribe() call with three topic filters (its UNSUBACK then has three reason codes) and a user property
                     sp.filters.push(format!("g/{idx}"));
@@ -524,6 +534,7 @@ impl World {
             either: Vec::new(),
             dropped: false,
             holds_slot: false,
+            oversize: kind == Kind::PubBig || (self.big_subs && matches!(kind, Kind::Sub | Kind::Unsub) && idx % 3 == 1),
             nfilters: if self.multi_filter && ((kind == Kind::Sub && idx % 2 == 1) || (kind == Kind::Unsub && idx % 2 == 0)) { 3 } else { 1 },
             expected_items: Vec::new(),
             expected_seq: Vec::new(),
@@ -651,7 +662,11 @@ impl World {
     /// `form`: 0 = shortest legal form, 1 = full form with reason string and user property.
     pub fn deliver_ack(&mut self, i: usize, stage: u8, ridx: usize, form: u8) {
         let n = self.next_nonce();
-        let id = self.m[i].pkt_id.expect("harness: ack for op without id");
+        // (the request never became a packet the model could read - the model is blind by then and has said why)
+        let Some(id) = self.m[i].pkt_id else {
+            self.sim.note(|| format!("model: no acknowledgement can be built for op{i}, its request was never seen on the wire"));
+            return;
+        };
         let kind = self.m[i].kind;
         let (rs, up): (Option<String>, UP) = if form == 1 {
             let rs = ack_reason_string(n);
@@ -938,6 +953,13 @@ impl World {
             props.push(Prop::str(28, sr.as_ref().unwrap()));
             props.push(Prop::str(31, rs.as_ref().unwrap()));
             props.push(Prop::pair(&up[1].0, &up[1].1));
+            // every second one ends with a user property whose value is empty (and every fourth with an empty name too)
+            if n % 2 == 0 {
+                let k = if n % 4 == 0 { String::new() } else { format!("e{n}") };
+                props.push(Prop::pair(&k, ""));
+                up.push((k, String::new()));
+                self.counters.disconnects_ending_in_empty_value += 1;
+            }
         }
         if self.term.is_none() {
             self.term = Some(if reason == 0 {
@@ -1324,11 +1346,37 @@ impl World {
             && self.term.is_none()
     }
 
+    /// The packet identifier at the position the standard assigns, for packet types that carry one from the client's side
+    /// as the start of an exchange (PUBLISH with QoS > 0, SUBSCRIBE, UNSUBSCRIBE), read without decoding anything else.
+    fn positional_id(bytes: &[u8]) -> Option<u16> {
+        let ty = bytes.first()? >> 4;
+        let mut i = 1;
+        while *bytes.get(i)? & 0x80 != 0 {
+            i += 1;
+            if i > 4 {
+                return None;
+            }
+        }
+        i += 1;
+        match ty {
+            3 if (bytes[0] >> 1) & 3 > 0 => {
+                let l = u16::from_be_bytes([*bytes.get(i)?, *bytes.get(i + 1)?]) as usize;
+                let at = i + 2 + l;
+                Some(u16::from_be_bytes([*bytes.get(at)?, *bytes.get(at + 1)?]))
+            }
+            8 | 10 => Some(u16::from_be_bytes([*bytes.get(i)?, *bytes.get(i + 1)?])),
+            _ => None,
+        }
+    }
+
     fn attribute_wire(&mut self) {
         self.sim.parse_wire();
         if let Some(e) = self.sim.wire_split_error.clone() {
             if !self.blind {
-                self.viol(P_C01, "C01/wire-unsplittable".into(), format!("the written byte stream cannot be split into packets: {e}"));
+                // a publish() that was accepted and whose PUBLISH cannot be found on the wire any more did not put exactly one
+                // PUBLISH on the connection: the same observation also refutes C06
+                let publish_lost = self.m.iter().any(|m| matches!(m.kind, Kind::Pub0 | Kind::Pub1 | Kind::Pub2) && m.submitted && m.req_wire.is_none() && !m.ever_on_wire && m.accepted != Some(false));
+                self.viol(if publish_lost { P_C06_01 } else { P_C01 }, "C01/wire-unsplittable".into(), format!("the written byte stream cannot be split into packets: {e}"));
                 self.blind = true;
             }
             return;
@@ -1351,8 +1399,20 @@ impl World {
                 Ok(p) => p.clone(),
                 Err(e) => {
                     let ty = wp.bytes[0] >> 4;
+                    // C11 speaks of the identifier a packet carries: the two bytes at the position the standard assigns
+                    // (behind the length-prefixed topic of a PUBLISH, first in a SUBSCRIBE / UNSUBSCRIBE), whatever else is
+                    // wrong with the packet. No acknowledgement can follow, so the exchange stays outstanding.
+                    if let Some(pid) = Self::positional_id(&wp.bytes) {
+                        if pid == 0 {
+                            self.viol(P_C11, "C11/zero-packet-id".into(), format!("malformed packet of type {ty} carries packet identifier 0 at the position the standard assigns"));
+                        } else if let Some(&j) = self.ids_outstanding.get(&pid) {
+                            self.viol(P_C11, "C11/duplicate-packet-id".into(), format!("malformed packet of type {ty} carries packet identifier {pid} at the position the standard assigns, still outstanding for op{j}"));
+                        } else if !self.malformed_ids.insert(pid) {
+                            self.viol(P_C11, "C11/duplicate-packet-id".into(), format!("two malformed packets (the second of type {ty}) carry packet identifier {pid} at the position the standard assigns; neither can have been acknowledged"));
+                        }
+                    }
                     self.viol(
-                        P_C01,
+                        if ty == 3 { P_C06_01 } else { P_C01 },
                         format!("C01/malformed-packet/type={ty}"),
                         format!("packet at wire offset {} rejected by the reference decoder: {e}\nbytes: {:02x?}", wp.offset, &wp.bytes[..wp.bytes.len().min(64)]),
                     );
@@ -1422,7 +1482,7 @@ impl World {
                     self.note_order(i);
                 }
                 CPacket::Subscribe(s) => {
-                    let op = s.filters.first().and_then(|f| f.filter.strip_prefix("f/")).and_then(|x| x.parse::<usize>().ok());
+                    let op = s.filters.first().and_then(|f| f.filter.strip_prefix("f/")).and_then(|x| x.split('/').next()).and_then(|x| x.parse::<usize>().ok());
                     let Some(i) = op.filter(|i| *i < self.m.len() && self.m[*i].kind == Kind::Sub) else {
                         self.viol(P_C01, "C01/unattributable-packet/SUBSCRIBE".into(), format!("SUBSCRIBE nobody asked for: {}", CPacket::Subscribe(s.clone()).brief()));
                         continue;
@@ -1454,7 +1514,7 @@ impl World {
                     self.note_order(i);
                 }
                 CPacket::Unsubscribe(s) => {
-                    let op = s.filters.first().and_then(|f| f.strip_prefix("u/")).and_then(|x| x.parse::<usize>().ok());
+                    let op = s.filters.first().and_then(|f| f.strip_prefix("u/")).and_then(|x| x.split('/').next()).and_then(|x| x.parse::<usize>().ok());
                     let Some(i) = op.filter(|i| *i < self.m.len() && self.m[*i].kind == Kind::Unsub) else {
                         self.viol(P_C01, "C01/unattributable-packet/UNSUBSCRIBE".into(), format!("UNSUBSCRIBE nobody asked for"));
                         continue;
@@ -1659,17 +1719,18 @@ impl World {
                     self.m[i].accepted = Some(on_wire);
                     continue;
                 }
-                if kind == Kind::PubBig && self.max_packet.map(|m| m < 300).unwrap_or(false) {
+                if self.m[i].oversize && self.max_packet.map(|m| m < 300).unwrap_or(false) {
                     // larger than the announced Maximum Packet Size: refused, nothing written, no slot taken
                     // with all R slots in use C10 promises QuotaExceeded and C12 MaximumPacketSizeExceeded: either is accepted then
                     let refused = matches!(out.as_ref().and_then(|o| o.err()), Some(ErrSum::MaximumPacketSizeExceeded))
-                        || (self.inflight >= self.r && matches!(out.as_ref().and_then(|o| o.err()), Some(ErrSum::QuotaExceeded)));
+                        || (kind == Kind::PubBig && self.inflight >= self.r && matches!(out.as_ref().and_then(|o| o.err()), Some(ErrSum::QuotaExceeded)));
+                    self.counters.oversize_refusals_expected += 1;
                     if on_wire {
-                        self.viol(&["C12"], "C12/oversized-packet-written/pubbig".into(), format!("op{i}: a 300-byte publish was written although Maximum Packet Size is {:?}", self.max_packet));
+                        self.viol(&["C12"], format!("C12/oversized-packet-written/{}", kind.name()), format!("op{i}: a request of more than 300 bytes was written although Maximum Packet Size is {:?}", self.max_packet));
                         self.m[i].accepted = Some(true);
                     } else {
                         if !refused {
-                            self.viol(&["C12"], "C12/oversized-not-refused/pubbig".into(), format!("op{i}: oversized publish: expected MaximumPacketSizeExceeded, got {:?}", out.as_ref().map(|o| o.brief())));
+                            self.viol(&["C12"], format!("C12/oversized-not-refused/{}", kind.name()), format!("op{i}: oversized {}: expected MaximumPacketSizeExceeded, got {:?}", kind.name(), out.as_ref().map(|o| o.brief())));
                         }
                         self.m[i].accepted = Some(false);
                         self.m[i].expected = out.clone();
